@@ -60,6 +60,9 @@ CHECKS = {
  "C08": ("model-based property testing (API histories against a reference ordered multimap) plus wire scenarios through generated client/server over a mock transport",
          "Histories (<=25 ops) of insert/append/remove/entry operations with typed, &str and String keys in lower/upper/mixed case against a HeaderMap-semantics model, all read accessors and iterators compared after every step (kind separation, base64 padding indifference, hash/equality); sending paths (generated client into a recording transport, generated server responses/trailers/statuses) judged for presence, order, base64 decodability and reserved-name forgery; receiving paths with padded and unpadded base64 read back through Request/Response/Status/Streaming metadata.",
          "Order between different names is not compared; wire padding is labelled only; a name present in both headers and trailers of one unary response is observed but not judged (outside what a tonic handler can attach).", "4/C08"),
+ "C17": ("property-based testing (independent grpc-web encoder + reference parse as oracle), every-offset truncation enumeration, coverage-guided fuzzing in the thorough tier",
+         "Bodies from the harness's own grpc-web encoder (0-5 message frames + trailers frame with colons, spaces, repeated/mixed-case names, -bin values) under stratified chunkings (inside frame headers, inside the trailers frame, message+trailers in one chunk, byte at a time, empty chunks, Pendings), truncated at every offset or mutated; judged on the body GrpcWebClientService returns and on the caller-visible result through generated clients: exact DATA, complete ordered trailers, errors (never a clean end, hang or busy loop) for cut-off or malformed bodies.",
+         "The client layer decodes binary mode only (text-mode responses are not generated); bytes after a complete trailers frame, flag 0x81 and questionable trailer blocks are only required to be total.", "4/C17"),
 }
 NOT_YET = {}
 def main():
